@@ -274,7 +274,9 @@ func main() {
 										}
 										src := env.NewSrc(data)
 										dst := env.NewDst()
-										rd := &wsutil.Reader{Source: src, State: drivers.State(side), MaxFrameSize: limit}
+										// the size limit does not depend on the (independent) option that turns the
+										// RFC header check off: both settings are used, alternating with the case
+										rd := &wsutil.Reader{Source: src, State: drivers.State(side), MaxFrameSize: limit, SkipHeaderCheck: ann%2 != 0}
 										handed := -1
 										rd.OnIntermediate = func(h ws.Header, r io.Reader) error {
 											p, err := io.ReadAll(r)
@@ -359,7 +361,7 @@ func main() {
 									} else {
 										src.Policy = env.FixedChunk(ch)
 									}
-									rd := &wsutil.Reader{Source: src, State: drivers.State(side), MaxFrameSize: limit}
+									rd := &wsutil.Reader{Source: src, State: drivers.State(side), MaxFrameSize: limit, SkipHeaderCheck: ch%2 != 0}
 									if inMsg {
 										if _, err := rd.NextFrame(); err != nil {
 											return explore.Failf("prefix-error", "%v", err)
